@@ -6,7 +6,8 @@ MODULE = "SysLoss.Props.C02"
 THEOREMS = ["SysLoss.C02." + t for t in (
     "eff_formula", "load_xor", "rise_lossload", "load_rise_full_fails", "pml_rloss", "pml_resid_switch",
     "pml_resid_linreg", "pml_resid_converter", "pml_resid_converter_noload", "pml_sleep", "pml_resid_mosfet",
-    "pml_source", "pml_source_spec_partial", "source_balance_full_fails", "system_balance")] + [
+    "pml_source", "pml_source_spec_partial", "source_balance_full_fails", "system_balance",
+    "series_core", "pml_vloss", "pml_diode", "pml_switch_steady")] + [
     "SysLoss.sum_kids_exchange"]
 LEVEL_TEXT = ("Theorems (Lean 4, any linearly ordered field, arbitrary row values): for every non-load kind the defect of "
               "Power-Loss = |Vout|*Iout is an explicit multiple of the row's deviation from its documented current law "
@@ -17,7 +18,7 @@ LEVEL_TEXT = ("Theorems (Lean 4, any linearly ordered field, arbitrary row value
               "implementation's own (v,i) and must agree to 1e-9, and every clause is evaluated on the returned table. "
               "Partial: negative Source with series resistance (F01) and temperature rise of non-loss loads (F24) violate the "
               "property, are test-pinned, proved as counterexamples (…_full_fails) and reported as KNOWN-FINDING.")
-LEVEL_NOTE = ("VLoss / diode-Rectifier rows and the link between the table assembler and the abstract forest of `system_balance` "
+LEVEL_NOTE = ("The link between the table assembler and the abstract forest of `system_balance` "
               "are covered by correspondence + oracle, not by a theorem.")
 RULE = ("random power trees as for C01 plus ambient temperature ta in [-60,150], thermal resistances on ~50% of the components, "
         "phases on 30% of the systems; non-trivial = solved and >= 3 components")
